@@ -3,6 +3,7 @@ package props
 import (
 	"fmt"
 	"strings"
+	"sync"
 	"sync/atomic"
 	"testing"
 	"time"
@@ -28,6 +29,9 @@ type C18Case struct {
 	Blocks  [][]C18Child `json:"blocks"`
 	QuiesMs int          `json:"quies_ms"`
 	Pool    bool         `json:"pool,omitempty"`
+	// Engines > 1: that many Gengine objects execute the freshly built RuleBuilder at the same
+	// moment (released by a barrier); no child fails and no gate is used in this mode.
+	Engines int `json:"engines,omitempty"`
 }
 
 type c18Host struct{ F0, F1, F2, F3, F4, F5, F6, F7 int64 }
@@ -147,7 +151,7 @@ func (o *c18Obj) Bad(id int64) int64 { o.act(-id); panic("injected method failur
 func init() {
 	register(&Prop{
 		ID:   "C18",
-		Rule: "one rule with 1-3 conc blocks of 0-6 children of all four kinds (assignments to distinct locals, to distinct fields of an injected struct and to distinct fields of one nested struct (held by value or through a pointer; such children meet at a bounded rendezvous so that their stores overlap) whose right-hand side is an observable call, function, method and three-level calls, each with a unique id), a generated failing subset (panicking function/method, type fault, wrong arity), after each block an observer call and reads of every local and field assigned inside; children parked on Hold gates until the event log is quiet, others yielding; oracle: each child ran exactly once, every child's finish event precedes the block's after-event, values read after the block are the children's values, with a failing child the rule fails, every other child of that block has finished when Execute returns and nothing after the block runs. Non-trivial: a block with >= 3 children of >= 2 kinds and a parked child, or a failing child next to a parked sibling; distinct by case hash",
+		Rule: "one rule with 1-3 conc blocks of 0-6 children of all four kinds (assignments to distinct locals, to distinct fields of an injected struct and to distinct fields of one nested struct (held by value or through a pointer; such children meet at a bounded rendezvous so that their stores overlap) whose right-hand side is an observable call, function, method and three-level calls, each with a unique id), a generated failing subset (panicking function/method, type fault, wrong arity), after each block an observer call and reads of every local and field assigned inside; children parked on Hold gates until the event log is quiet, others yielding; oracle: each child ran exactly once, every child's finish event precedes the block's after-event, values read after the block are the children's values, with a failing child the rule fails, every other child of that block has finished when Execute returns and nothing after the block runs. In 15% of the failure-free engine cases 2-8 Gengine objects execute the freshly built RuleBuilder at the same moment (every child once per execution, every read after a block correct). Non-trivial: a block with >= 3 children of >= 2 kinds and a parked child, or a failing child next to a parked sibling; distinct by case hash",
 		New:  func() interface{} { return &C18Case{} },
 		Gen: func(t *rapid.T) interface{} {
 			c := &C18Case{QuiesMs: quiesMs(), Pool: pct(t, "pool", 25)}
@@ -215,6 +219,9 @@ func init() {
 					}
 				}
 				c.Blocks = append(c.Blocks, blk)
+			}
+			if failBlock < 0 && !c.Pool && pct(t, "multi_engine", 15) {
+				c.Engines = uni(t, "engines", 2, 8)
 			}
 			return c
 		},
@@ -299,6 +306,10 @@ func checkC18(ci interface{}, x *Ctx) {
 				gates[fmt.Sprint(ch.ID)] = ch.Gate
 			}
 		}
+	}
+	if c.Engines > 1 && tg.rb != nil {
+		checkC18MultiEngine(c, x, env, tg, text)
+		return
 	}
 	res := runWithSchedule(x, tg, gx.Call{Method: "Execute", B: true}, gates, time.Duration(c.QuiesMs)*time.Millisecond)
 	trace := env.log.Snapshot()
@@ -426,6 +437,90 @@ func checkC18(ci interface{}, x *Ctx) {
 	}
 	if parkedSomewhere {
 		x.Class("parked-child")
+	}
+}
+
+// checkC18MultiEngine: N engines execute one freshly built RuleBuilder simultaneously; every
+// child of every block must run exactly once per execution and every read after a block must
+// see its block's values.
+func checkC18MultiEngine(c *C18Case, x *Ctx, env *schedEnv, tg *schedTarget, text string) {
+	n := c.Engines
+	x.Class("several-engines-execute-one-fresh-builder-at-once")
+	x.NonTrivial()
+	var ready, goFlag int32
+	errs := make([]error, n)
+	pans := make([]string, n)
+	done := make(chan struct{})
+	var wg sync.WaitGroup
+	for i := 0; i < n; i++ {
+		wg.Add(1)
+		go func(i int) {
+			defer wg.Done()
+			g := engine.NewGengine()
+			atomic.AddInt32(&ready, 1)
+			for atomic.LoadInt32(&goFlag) == 0 {
+			}
+			_, pans[i] = guard(func() error { errs[i] = g.Execute(tg.rb, true); return nil })
+		}(i)
+	}
+	for atomic.LoadInt32(&ready) < int32(n) {
+		time.Sleep(10 * time.Microsecond)
+	}
+	atomic.StoreInt32(&goFlag, 1)
+	go func() { wg.Wait(); close(done) }()
+	select {
+	case <-done:
+	case <-time.After(hangBound()):
+		hangExit(x, currentCaseJSON, fmt.Sprintf("%d engines executing one builder did not return", n))
+	}
+	trace := env.log.Snapshot()
+	fail := func(sig, f string, a ...interface{}) {
+		x.Violation(sig, f+"\nrule:\n%s\ntrace %v", append(a, text, trace)...)
+	}
+	for i := 0; i < n; i++ {
+		if pans[i] != "" {
+			fail("panic/multi-engine", "engine %d of %d panicked: %s", i, n, truncate(pans[i], 200))
+			return
+		}
+		if errs[i] != nil {
+			fail("spurious-error/multi-engine", "no child fails, but engine %d of %d returned %s", i, n, truncate(errs[i].Error(), 300))
+			return
+		}
+	}
+	cnt := map[string]int{}
+	rdBad := ""
+	for _, e := range trace {
+		cnt[e.Kind+":"+e.Name]++
+		if e.Kind == "RD" {
+			var id int64
+			fmt.Sscan(e.Name, &id)
+			if e.Arg != id*10 && rdBad == "" {
+				rdBad = fmt.Sprintf("after its block the value assigned by child %d reads %d, want %d", id, e.Arg, id*10)
+			}
+		}
+	}
+	for bi, blk := range c.Blocks {
+		if cnt["AFTER:"+fmt.Sprint(bi)] != n {
+			fail("after-count/multi-engine", "the statement after block %d ran %d times in %d executions", bi, cnt["AFTER:"+fmt.Sprint(bi)], n)
+			return
+		}
+		for _, ch := range blk {
+			id := fmt.Sprint(ch.ID)
+			if ch.Kind != "lit" && cnt["V:"+id] != n {
+				fail("child-count/multi-engine:"+ch.Kind, "child %s (%s) of block %d ran %d times in %d simultaneous executions of one freshly built rule set, want exactly once per execution", id, ch.Kind, bi, cnt["V:"+id], n)
+				return
+			}
+			switch ch.Kind {
+			case "local", "lit", "field", "nested", "nestedp":
+				if cnt["RD:"+id] != n {
+					fail("read-count/multi-engine", "the read of child %s's value after block %d ran %d times in %d executions", id, bi, cnt["RD:"+id], n)
+					return
+				}
+			}
+		}
+	}
+	if rdBad != "" {
+		fail("lost-assignment/multi-engine", "%s", rdBad)
 	}
 }
 
